@@ -37,22 +37,25 @@ EmptyStore == [root |-> [f \in Files |-> 0], objs |-> <<>>]
 Parent(p) == SubSeq(p, 1, Len(p) - 1)
 IsPrefixPath(a, b) == Len(a) <= Len(b) /\ SubSeq(b, 1, Len(a)) = a
 LastName(p) == p[Len(p)]
-Fuel == 8
+Fuel == 8          \* depth bound for walks over object TREES (hard links only; acyclic by construction)
+ResFuel == 64      \* step bound for path RESOLUTION through soft / external links (only link loops exhaust it: a history of
+                   \* n operations holds at most n links of at most two names each)
 
 -----------------------------------------------------------------------------
 (* path resolution through links; the result is [f, o]: the object and the file it lives in (o = 0: the path
    does not resolve - no such name, dangling link, or a link loop that exhausts the fuel) *)
 RECURSIVE Res(_, _, _, _, _)
 Res(S, f, o, rest, fuel) ==
-  IF o = 0 \/ fuel = 0 THEN [f |-> f, o |-> 0]
+  IF o = 0 THEN [f |-> f, o |-> 0]
   ELSE IF Len(rest) = 0 THEN [f |-> f, o |-> o]
+  ELSE IF fuel = 0 THEN [f |-> f, o |-> 0]
   ELSE LET lk == S.objs[o].kids[Head(rest)] IN
        IF lk.k = "none" THEN [f |-> f, o |-> 0]
        ELSE IF lk.k = "h" THEN Res(S, f, lk.o, Tail(rest), fuel - 1)
        ELSE IF lk.k = "s" THEN Res(S, f, S.root[f], lk.p \o Tail(rest), fuel - 1)
        ELSE IF S.root[lk.f] = 0 THEN [f |-> lk.f, o |-> 0]
        ELSE Res(S, lk.f, S.root[lk.f], lk.p \o Tail(rest), fuel - 1)
-ResolveFO(S, f, p) == IF S.root[f] = 0 THEN [f |-> f, o |-> 0] ELSE Res(S, f, S.root[f], p, Fuel)
+ResolveFO(S, f, p) == IF S.root[f] = 0 THEN [f |-> f, o |-> 0] ELSE Res(S, f, S.root[f], p, ResFuel)
 Resolve(S, f, p) == ResolveFO(S, f, p).o
 \* the file in which the object named by p lives (differs from f behind an external link)
 FileOfPath(S, f, p) == ResolveFO(S, f, p).f
@@ -82,7 +85,17 @@ Spins(S, f, o, rest, fuel) ==
 ShortPaths == {<<>>} \cup {<<a>> : a \in Names} \cup {<<a, b>> : a \in Names, b \in Names}
 Cyclic(S) ==
   \E f \in Files : S.root[f] # 0 /\
-     (DeepFrom(S, f, S.root[f], CycleDepth) \/ \E p \in ShortPaths : Spins(S, f, S.root[f], p, Fuel + 4))
+     (DeepFrom(S, f, S.root[f], CycleDepth) \/ \E p \in ShortPaths : Spins(S, f, S.root[f], p, ResFuel))
+\* does the resolution of path p of file f pass through an external link INTO file g?
+RECURSIVE ResEnters(_, _, _, _, _, _)
+ResEnters(S, f, o, rest, fuel, g) ==
+  IF o = 0 \/ Len(rest) = 0 \/ fuel = 0 THEN FALSE
+  ELSE LET lk == S.objs[o].kids[Head(rest)] IN
+       IF lk.k = "none" THEN FALSE
+       ELSE IF lk.k = "h" THEN ResEnters(S, f, lk.o, Tail(rest), fuel - 1, g)
+       ELSE IF lk.k = "s" THEN ResEnters(S, f, S.root[f], lk.p \o Tail(rest), fuel - 1, g)
+       ELSE lk.f = g \/ (S.root[lk.f] # 0 /\ ResEnters(S, lk.f, S.root[lk.f], lk.p \o Tail(rest), fuel - 1, g))
+Enters(S, f, p, g) == S.root[f] # 0 /\ ResEnters(S, f, S.root[f], p, ResFuel, g)
 \* the link stored under the last name of p (NoLink if the parent does not resolve)
 LinkAt(S, f, p) ==
   IF Len(p) = 0 THEN NoLink
@@ -173,10 +186,19 @@ CopyOk(S, kind, sf, sp, df, dp, ow) ==
             /\ (kind \in {"cp", "mv"}) => Resolve(S1, sf, sp) # 0
             /\ IF Len(dp) = 0 THEN kind \in {"cp", "mv"} ELSE CanPut(S1, df, dp)
 \* the state after the call (also when it fails: the destination file may have been created / truncated)
-CopyRootInto(S, so, df) ==       \* cross-file copy onto the (empty) root of df: kids one by one, then the attributes
+\* cross-file copy onto the (empty) root of df: the members one by one, EACH NAMED BY ITS PATH (so a member that is a soft or
+\* external link is copied as the object it resolves to, unlike links deeper down, which stay links), then the attributes
+RECURSIVE CopyTopKids(_, _, _, _, _)
+CopyTopKids(S, sf, sp, dst, k) ==
+  IF k > Len(NameSeq) THEN S
+  ELSE LET nm == NameSeq[k]
+           t == Resolve(S, sf, sp \o <<nm>>)
+       IN IF t = 0 THEN CopyTopKids(S, sf, sp, dst, k + 1)          \* no such member (dangling members: outside the domain)
+          ELSE LET r == CopyObj(S, t, Fuel) IN CopyTopKids(SetKid(r.S, dst, nm, HardTo(r.top)), sf, sp, dst, k + 1)
+CopyRootInto(S, sf, sp, df) ==
   LET dr == S.root[df]
-      S2 == CopyKids(S, so, dr, 1, Fuel)
-  IN [S2 EXCEPT !.objs[dr].c = S.objs[so].c]
+      S2 == CopyTopKids(S, sf, sp, dr, 1)
+  IN [S2 EXCEPT !.objs[dr].c = S.objs[Resolve(S, sf, sp)].c]
 Copy(S, kind, sf, sp, df, dp, ow) ==
   IF S.root[sf] = 0 \/ (SameFile(sf, df) /\ ow) THEN S
   ELSE
@@ -193,7 +215,7 @@ Copy(S, kind, sf, sp, df, dp, ow) ==
                 IN SetKid(S2, Resolve(S2, sf, Parent(sp)), LastName(sp), NoLink)
          ELSE LET r == CopyObj(S1, Resolve(S1, sf, sp), Fuel) IN PutLink(r.S, df, dp, HardTo(r.top))
     ELSE IF kind = "lns" THEN PutLink(S1, df, dp, ExtTo(sf, sp))
-         ELSE IF Len(dp) = 0 THEN CopyRootInto(S1, Resolve(S1, sf, sp), df)
+         ELSE IF Len(dp) = 0 THEN CopyRootInto(S1, sf, sp, df)
          ELSE LET r == CopyObj(S1, Resolve(S1, sf, sp), Fuel) IN PutLink(r.S, df, dp, HardTo(r.top))
 \* inputs the model does not cover (the drivers never generate them):
 \*  - a source that is the root for same-file operations and for links (cycles / root cannot be unlinked)
@@ -206,6 +228,13 @@ InDomain(S, kind, sf, sp, df, dp, ow) ==
   /\ (~SameFile(sf, df) /\ Len(dp) = 0 /\ kind \in {"cp", "mv"} /\ ~ow /\ S.root[df] # 0) =>
         (S.objs[S.root[df]].c = 0 /\ \A n \in Names : S.objs[S.root[df]].kids[n].k = "none")
   /\ kind = "mv" => SameFile(sf, df)          \* mv is documented (and judged) within one file
+  \* a cross-file copy whose SOURCE path leads, through an external link, into the DESTINATION file: HDF5 refuses to open
+  \* a file a second time with other access flags while it is open for writing (h5py: RuntimeError) - not modelled
+  /\ (~SameFile(sf, df) /\ kind = "cp") => ~Enters(S, sf, sp, df)
+  \* ... and, when the destination is the root, members of the source that are links must resolve, outside the destination file
+  /\ (~SameFile(sf, df) /\ kind = "cp" /\ Len(dp) = 0 /\ Resolve(S, sf, sp) # 0) =>
+        \A nm \in Names : LinkAt(S, sf, sp \o <<nm>>).k \in {"s", "x"} =>
+              (Resolve(S, sf, sp \o <<nm>>) # 0 /\ ~Enters(S, sf, sp \o <<nm>>, df))
   \* a destination whose parent path runs through a soft or external link is not modelled (h5py fails in
   \* several ways there: 'address undefined', writes into the other file, ...)
   /\ \A j \in 1..(Len(dp) - 1) : LinkAt(S, df, SubSeq(dp, 1, j)).k \in {"none", "h"}
